@@ -91,4 +91,10 @@ def readFrameFuel : M Nat := fun s => (s, .ok (s.t.rd.length + 1))
 /-- iterations that suffice for the `while` of `write_out_buffer`: every one drains at least a byte -/
 def writeFuel : M Nat := fun s => (s, .ok s.c.outBuf.length)
 
+/-- `self.stream.flush()` (used by `FrameSocket::flush`) -/
+def streamFlush : M Unit := fun s =>
+  match s.t.flush with
+  | (t, .ok) => ({ s with t := t }, .ok ())
+  | (t, .err k) => ({ s with t := t }, .err (.io k))
+
 end WsModel.GenCodec
